@@ -21,7 +21,8 @@ RULE = ("the stdlib random functions are replaced (before the package is importe
         "produced by some leaf; a missing ordering that the documented queue algorithm (own model of utils/nondeterministic_descent.py) "
         "cannot produce is the known finding, a missing ordering that algorithm does produce is a violation. Every 7th leaf is run twice "
         "to detect entropy that escapes the chooser (then exhaustiveness is skipped, never failed). Non-trivial: >=2 distinct orderings "
-        "observed; distinct by (query, value).")
+        "observed; distinct by (query, value)."
+        " Before each enumeration the same query text is evaluated and abandoned part-way on another document with the same environment.")
 ASSUMPTIONS = ["permitted set computed by vf/oracle/order.py from RFC 9535 2.5.2.2 (cross-checked against the permitted-ordering tables of tests/test_nondeterminism.py by ./selfcheck)",
                "filter truth does not depend on member order"]
 DECIDING_MONITORS = ["M-leaf"]
